@@ -312,7 +312,7 @@ func (dest *destination) Calculate(logger *slog.Logger, newPath *Path) (*Update,
 	if newPath.IsWithdraw {
 		oldPath = dest.explicitWithdraw(logger, newPath)
 		if oldPath != nil && newPath.IsDropped() {
-			if id := oldPath.localID; id != 0 {
+			if id := oldPath.LocalID(); id != 0 {
 				dest.localIdMap.Unflag(uint(id))
 			}
 		}
@@ -322,13 +322,13 @@ func (dest *destination) Calculate(logger *slog.Logger, newPath *Path) (*Update,
 	}
 
 	for _, path := range dest.knownPathList {
-		if path.localID == 0 {
+		if path.LocalID() == 0 {
 			id, err := dest.localIdMap.FindandSetZeroBit()
 			if err != nil {
 				dest.localIdMap.Expand()
 				id, _ = dest.localIdMap.FindandSetZeroBit()
 			}
-			path.localID = uint32(id)
+			path.setLocalID(uint32(id))
 		}
 	}
 
@@ -368,7 +368,7 @@ func (dest *destination) explicitWithdraw(logger *slog.Logger, withdraw *Path) *
 		// We have a match if the source and path-id are same.
 		if path.EqualBySourceAndPathID(withdraw) {
 			isFound = i
-			withdraw.localID = path.localID
+			withdraw.setLocalID(path.LocalID())
 		}
 	}
 
@@ -412,8 +412,8 @@ func (dest *destination) implicitWithdraw(logger *slog.Logger, newPath *Path) *P
 			// a soft reset feeds the very Path objects of the Adj-RIB-In back
 			// in; they are shared with watchers, so do not write a value the
 			// path already has
-			if newPath.localID != path.localID {
-				newPath.localID = path.localID
+			if id := path.LocalID(); newPath.LocalID() != id {
+				newPath.setLocalID(id)
 			}
 			break
 		}
